@@ -226,3 +226,8 @@ CLAIMS['C19']['text'] += (' Round 9: UNCHECKED-SIBLING - the range-unchecked sli
                           'expressions as its checked sibling (piece searches with receiver and comparator, miss adjustment, index of '
                           'every piece access, range of every cut); decided as sibling agreement, not as correctness of either.')
 CLAIMS['C19']['technique'] += '; sibling agreement of normalised search / cut expressions between the checked and the unchecked slicer'
+
+_R9_COND = (' (VLQ-FIELD-RESET, ACTIVE-CLEARED and NAME-SIBLING are conditional rules: armed while the construct has a shape the recogniser '
+            'knows, reported as not decided otherwise; their seeded canaries in the thorough tier exclude a vacuous pass on the current tree.)')
+for _p in ('C06', 'C08', 'C12', 'C13'):
+    CLAIMS[_p]['text'] += _R9_COND
